@@ -401,8 +401,10 @@ class RouteMap(BaseModel):
         # typedef of the address rule
         string += sv_param_decl(f"{snake_to_camel(self.name)}NumRules", len(rules)) + "\n"
         addr_type = f"logic [{aw-1}:0]" if aw is not None else "id_t"
-        rule_type_dict = {}
-        rule_type_dict = {"idx": "id_t", "start_addr": addr_type, "end_addr": addr_type}
+        # The index of the system address map is a destination ID, the one of a router table
+        # is an output port, which can be larger than the largest ID
+        idx_type = "id_t" if aw is not None else "int unsigned"
+        rule_type_dict = {"idx": idx_type, "start_addr": addr_type, "end_addr": addr_type}
         string += sv_struct_typedef(self.rule_type(), rule_type_dict)
         rules_str = ""
         if not rules:
